@@ -20,6 +20,39 @@ Definition lz := list_eqb Z.eqb.
 
 Definition is_utf8 (e : encarg) : bool := match codec_strict e with Some CUtf8 => true | _ => false end.
 
+(* specification of write(string, offset, length, enc), independent of Model.write_str: as many whole characters
+   (utf8) / bytes (other codecs) as fit in min(length, room) *)
+Fixpoint fit_chars (cps : list Z) (room : Z) : list Z :=
+  match cps with
+  | [] => []
+  | c :: r => let e := utf8_enc1 c in
+              let l := Z.of_nat (List.length e) in
+              if l <=? room then e ++ fit_chars r (room - l) else []
+  end.
+
+Definition spec_write (bb : list Z) (s : option (list Z)) (a_off a_len : jsarg) (e : encarg) : option obs_w :=
+  match s, codec_strict e with
+  | Some str, Some cd =>
+    let len := Z.of_nat (List.length bb) in
+    match (match a_off with AUndef => Some 0 | ANum v _ => Some v | _ => None end) with
+    | None => None        (* must throw; class not specified here *)
+    | Some off =>
+      if (off <? 0) || (off >? len) then None else
+      let room := len - off in
+      match (match a_len with AUndef => Some room | ANum v _ => if v <? 0 then None else Some (Z.min v room) | _ => None end) with
+      | None => None
+      | Some limit =>
+        let written := match cd with
+                       | CUtf8 => fit_chars (map (fun c => if is_surrogate c then 65533 else c) str) limit
+                       | _ => firstn (Z.to_nat limit) (codec_decode cd str)
+                       end in
+        let n := Z.of_nat (List.length written) in
+        Some (OW (firstn (Z.to_nat off) bb ++ written ++ skipn (Z.to_nat (off + n)) bb) n)
+      end
+    end
+  | _, _ => None
+  end.
+
 Definition check (c : case) : list verdict :=
   match c with
   | KToString e b a_s a_e wf o =>
@@ -40,6 +73,13 @@ Definition check (c : case) : list verdict :=
     (if lz (from_string (codec_encode (codec_or_utf8 e) b) e) o then [] else [Diff 3]) ++
     (if lz b o || (match codec_or_utf8 e with CUtf8 => negb wf | _ => false end) then [] else [SpecFail 1])
   | KWrite bb s a_off a_len e o =>
+    (match spec_write bb s a_off a_len e, o with
+     | Some (OW m n), OW x k => if lz m x && (n =? k) then [] else [SpecFail 7]
+     | Some _, _ => [SpecFail 7]
+     | None, OW _ _ => [SpecFail 7]      (* accepted a call that must throw *)
+     | None, OWThrow _ => []
+     | None, OWPanic => []               (* reported by the model comparison below as SpecFail 5 *)
+     end) ++
     match write_str bb s a_off a_len e, o with
     | WOk m n, OW x k => if lz m x && (n =? k) then [] else [Diff 4]
     | WThrow cl, OWThrow cl' => if cl =? cl' then [] else [Diff 4]
